@@ -33,7 +33,8 @@ def gen(rng, k):
     sa = 0x20
     dests = [255] + rng.sample([0x30, 0x31, 0x32], rng.randint(0, 2))
     stacks = [dict(dll='j1939-22', max_cmdt=3, subs=[dict(cid=1, filt=sa)], cas=[]),
-              dict(dll='j1939-22', max_cmdt=3, subs=[dict(cid=10, filt=0x30), dict(cid=11, filt=None)], cas=[dict(name=9, addr=0x31, bypass=True, subs=[12])]),
+              dict(dll='j1939-22', max_cmdt=3, subs=[dict(cid=10, filt=0x30), dict(cid=11, filt=None)],
+                   cas=[dict(name=9, addr=0x31, bypass=True, subs=[12]), dict(name=8, addr=0x33, bypass=True, subs=[13])]),
               dict(dll='j1939-22', max_cmdt=3, subs=[dict(cid=20, filt=0x32)], cas=[])]
     script = []
     t = 1000
@@ -56,11 +57,21 @@ def gen(rng, k):
             script.append(dict(t=t, s=0, op='add_timer', cid=500 + i, delta=rng.choice([1000, 30000]), ret=False, script=[dict(op='send', a=a)]))
         else:
             script.append(dict(t=t, s=0, op='send', a=a))
+    if rng.random() < 0.2:
+        # many tiny groups for one destination inside one window: up to 12 fit into one 64-byte frame (5 bytes each)
+        d = rng.choice(dests)
+        tl = rng.choice([5000, 20000, 100000])
+        t += 400000
+        for i in range(rng.randint(9, 13)):
+            n = rng.choice([1, 1, 2, 3])
+            pf, ps = (rng.randint(240, 255), rng.randrange(256)) if d == 255 else (rng.randrange(0x50, 0xE0), d)
+            script.append(dict(t=t, s=0, op='send', a=[0, pf, ps, rng.randint(0, 7), sa, dict(seed=rng.getrandbits(24), len=n), tl, FEFF]))
     if rng.random() < 0.3:
         # cyclic application timers on the sending ECU: a re-armed timer must not postpone a buffer's time limit
         for i in range(rng.choice([1, 2])):
             script.append(dict(t=rng.choice([100, 900, 50000]), s=0, op='add_timer', cid=800 + i, delta=rng.choice([150000, 400000, 700000, 1000000]), ret=True))
         script.sort(key=lambda e: e['t'])
+    script.sort(key=lambda e: e['t'])
     return dict(stacks=stacks, lat=[rng.choice([1, 500])], jit=[rng.choice([1, 400])], script=script, horizon=t + 6_500_000)
 
 
